@@ -101,6 +101,9 @@ def lexer_equivalence(run, syn, helper, n_max, budget_s):
         skb = whole_token(s, rl_skip, "sb", cls_vars(3), [0])
         s.add(wa != wb, z3.Not(z3.And(ska == 0, skb == 0)))
         enc = time.time() - t0
+        if os.environ.get("VERIF_DUMP_SMT"):
+            with open(os.path.join(os.environ["VERIF_DUMP_SMT"], f"C08-lexer-n{n}.smt2"), "w") as f:
+                f.write("(set-logic ALL)\n" + s.to_smt2())
         found, verdict = 0, "pass"
         while found < 3:
             t1 = time.time()
